@@ -17,3 +17,21 @@ pub fn find_entry(
 pub fn entry_codec(index_bits: u8, key_prefix: u64, address: u64) -> (u64, u64, u64, u64, u64) {
 	crate::index::IndexTable::verif_entry_codec(index_bits, key_prefix, address)
 }
+
+/// H2/H3: an event callback for the correspondence harness. Events: ("append", record id, log file
+/// id) after a record was written to the log file; ("enact_begin" / "enact_end", record id,
+/// replay?) around the application of a record; ("store", table kind << 16 | table id, index)
+/// after a write to a table mapping; ("truncate", log file id, 0) before a log file is truncated.
+pub type EventHook = fn(&'static str, u64, u64);
+static EVENT_HOOK: std::sync::RwLock<Option<EventHook>> = std::sync::RwLock::new(None);
+
+pub fn set_event_hook(hook: Option<EventHook>) {
+	*EVENT_HOOK.write().unwrap() = hook;
+}
+
+pub(crate) fn event(kind: &'static str, a: u64, b: u64) {
+	let hook = *EVENT_HOOK.read().unwrap();
+	if let Some(h) = hook {
+		h(kind, a, b)
+	}
+}
